@@ -41,14 +41,14 @@ func init() {
 	}})
 }
 
-var c19States = []string{"fresh", "greeted", "mail", "rcpt", "bdat", "hellorej", "wrongflavour"}
+var c19States = []string{"fresh", "greeted", "mail", "rcpt", "bdat", "hellorej", "wrongflavour", "failedtls", "failedtls-rcpt"}
 
 func c19Run(ctx *core.Ctx) {
 	nFuzz, shortLen := 60000, 3
 	if ctx.Thorough() {
 		nFuzz, shortLen = 5000000, 5
 	}
-	ctx.Rule = fmt.Sprintf("limits {32,64,2000,5000,8192} x total line lengths {limit-2..limit+3, 3*limit} x position {first line, later line, MAIL line, inside an AUTH exchange, after DATA, after a non-LAST BDAT chunk, after a refused BDAT} x {one segment, two segments cut in the middle / after the first octet / right before CRLF / right before LF} x Server.Debug {unset, set}; endless lines fed in 512-octet segments; all strings of length <=%d over {NUL,CR,LF,SP,'A','a',':','<',0xFF} as command lines in 7 session states (fresh, greeted, greeting refused by the backend, greeting of the wrong flavour, MAIL, RCPT, mid-BDAT); %d seeded binary lines / token soups (a quarter of them MAIL/RCPT lines whose path is a soup of path fragments, another quarter MAIL/RCPT lines with a valid path and a soup of parameter fragments: truncated xtext hexchars, utf-8-addr escapes, dates, lists; every extension enabled); mixes of valid commands (incl. transaction ends and a STARTTLS upgrade) with 3..6 invalid ones. Oracles: ErrorLog tap (recovered panics), consumption counter of the transport, reply parser, backend log. Non-trivial: every case (hostile by construction); distinct by case.", shortLen, nFuzz)
+	ctx.Rule = fmt.Sprintf("limits {32,64,2000,5000,8192} x total line lengths {limit-2..limit+3, 3*limit} x position {first line, later line, MAIL line, inside an AUTH exchange, after DATA, after a non-LAST BDAT chunk, after a refused BDAT} x {one segment, two segments cut in the middle / after the first octet / right before CRLF / right before LF} x Server.Debug {unset, set}; endless lines fed in 512-octet segments; all strings of length <=%d over {NUL,CR,LF,SP,'A','a',':','<',0xFF} as command lines in 9 session states (fresh, greeted, greeting refused by the backend, greeting of the wrong flavour, MAIL, RCPT, mid-BDAT, STARTTLS accepted but the handshake failed - greeted / with an envelope); %d seeded binary lines / token soups (a quarter of them MAIL/RCPT lines whose path is a soup of path fragments, another quarter MAIL/RCPT lines with a valid path and a soup of parameter fragments: truncated xtext hexchars, utf-8-addr escapes, dates, lists; every extension enabled); mixes of valid commands (incl. transaction ends and a STARTTLS upgrade) with 3..6 invalid ones. Oracles: ErrorLog tap (recovered panics), consumption counter of the transport, reply parser, backend log. Non-trivial: every case (hostile by construction); distinct by case.", shortLen, nFuzz)
 	ctx.Assumptions = []string{"lines of exactly limit+1 octets are not judged", "short lines that share a segment with an over-long one are not judged", "an unrecovered panic kills the child process and is reported by the parent as <id>:process-crash"}
 	core.RunCases(ctx, func(emit func(c19Case)) {
 		for _, limit := range []int{32, 64, 2000, 5000, 8192} {
@@ -79,6 +79,14 @@ func c19Run(ctx *core.Ctx) {
 				emit(c19Case{Kind: "short", State: st, Line: line, LineQ: fmt.Sprintf("%q", line)})
 			}
 		})
+		// every ordinary command (and a few pipelined pairs) in every state: out of place in most of
+		// them, which must be a refusal and never a crash
+		for _, l := range []string{"MAIL FROM:<a@x.test>", "MAIL FROM:<>", "RCPT TO:<b@x.test>", "DATA", "BDAT 1 LAST\r\nx", "BDAT 0 LAST", "BDAT 0", "RSET", "VRFY a", "EXPN l", "HELP", "NOOP", "AUTH VERIF b2s=", "AUTH VERIF", "STARTTLS", "QUIT",
+			"EHLO again.test", "HELO again.test", "LHLO again.test", "MAIL FROM:<a@x.test>\r\nRCPT TO:<b@x.test>\r\nDATA\r\nx\r\n.", "MAIL FROM:<a@x.test> BODY=BINARYMIME\r\nRCPT TO:<b@x.test>\r\nBDAT 1 LAST\r\nx", "RCPT TO:<b@x.test>\r\nBDAT 2\r\nab\r\nRSET"} {
+			for _, st := range c19States {
+				emit(c19Case{Kind: "short", State: st, Line: []byte(l), LineQ: fmt.Sprintf("%q", l)})
+			}
+		}
 		for i := 0; i < nFuzz; i++ {
 			emit(c19Case{Kind: "fuzz", Seed: ctx.Seed<<32 | uint64(i), State: c19States[i%len(c19States)]})
 		}
@@ -134,6 +142,13 @@ func c19Rig(mode srvMode, limit int) *wire.Rig {
 	return rig
 }
 
+// c19TLSFor gives the server a TLS configuration when the state needs STARTTLS to be offered.
+func c19TLSFor(rig *wire.Rig, state string) {
+	if strings.HasPrefix(state, "failedtls") {
+		rig.Srv.TLSConfig = wire.ServerTLS()
+	}
+}
+
 // c19Enter brings the connection into the named state (lock-step) and returns false on failure.
 func c19Enter(p *wire.Peer, mode srvMode, state string) bool {
 	if _, err := p.ReadReply(); err != nil {
@@ -157,6 +172,27 @@ func c19Enter(p *wire.Peer, mode srvMode, state string) bool {
 		cmds = []string{mode.hello(), "MAIL FROM:<s@x.test>", "RCPT TO:<r@x.test>"}
 	case "bdat":
 		cmds = []string{mode.hello(), "MAIL FROM:<s@x.test>", "RCPT TO:<r@x.test>", "BDAT 2\r\nab"} // payload sent as its own segment
+	}
+	if strings.HasPrefix(state, "failedtls") {
+		// STARTTLS is accepted, but what the peer sends next is not a TLS record: the handshake
+		// fails and the connection (if the server keeps it) is the plaintext connection it was
+		cmds = []string{mode.hello()}
+		if state == "failedtls-rcpt" {
+			cmds = append(cmds, "MAIL FROM:<s@x.test>", "RCPT TO:<r@x.test>")
+		}
+		for _, c := range cmds {
+			p.SendStr(c + "\r\n")
+			if _, err := p.ReadReply(); err != nil {
+				return false
+			}
+		}
+		p.SendStr("STARTTLS\r\n")
+		if r, err := p.ReadReply(); err != nil || r.Code != 220 {
+			return false
+		}
+		p.SendStr("NOOP\r\n")
+		p.ReadUntilStall() // a closed connection is a legitimate outcome: the lines that follow go nowhere
+		return true
 	}
 	for _, c := range cmds {
 		if strings.HasPrefix(c, "BDAT") {
@@ -343,6 +379,7 @@ func c19Length(ctx *core.Ctx, c c19Case) {
 func c19Endless(ctx *core.Ctx, c c19Case) {
 	ctx.Eval(fmt.Sprintf("endless|%d|%s", c.Limit, c.State), true)
 	rig := c19Rig(modeSMTP, c.Limit)
+	c19TLSFor(rig, c.State)
 	p := rig.Dial()
 	if !c19Enter(p, modeSMTP, c.State) {
 		p.Close()
@@ -467,6 +504,7 @@ func c19Garbage(ctx *core.Ctx, c c19Case) {
 	}
 	ctx.Eval(fmt.Sprintf("%s|%s|%q", c.Kind, c.State, line), true)
 	rig := c19Rig(modeSMTP, 0)
+	c19TLSFor(rig, c.State)
 	p := rig.Dial()
 	if !c19Enter(p, modeSMTP, c.State) {
 		p.Close()
